@@ -86,6 +86,32 @@ mod fw {
 
     #[contractimpl(contracttrait)]
     impl Votes for FungW {}
+
+    /// the footgun wiring: ContractType = FungibleVotes, but the DEFAULT FungibleBurnable bodies (Base::burn/burn_from,
+    /// no votes hook).  Driven only to show that the model of that wiring (step_db) and the code agree (diff only).
+    #[contract]
+    pub struct FungDB;
+
+    #[contractimpl]
+    impl FungDB {
+        pub fn __constructor(e: &Env) {
+            Base::set_metadata(e, 7, String::from_str(e, "D"), String::from_str(e, "D"));
+        }
+        pub fn mint(e: &Env, to: Address, amount: i128) { FungibleVotes::mint(e, &to, amount); }
+        pub fn obs_cur(e: &Env, accounts: Vec<Address>) -> CurSnap { FungW::obs_cur(e, accounts) }
+        pub fn obs_past(e: &Env, accounts: Vec<Address>, qs: Vec<u32>) -> Vec<Vec<u128>> { past_rows(e, &accounts, &qs) }
+    }
+
+    #[contractimpl(contracttrait)]
+    impl FungibleToken for FungDB {
+        type ContractType = FungibleVotes;
+    }
+
+    #[contractimpl(contracttrait)]
+    impl FungibleBurnable for FungDB {}
+
+    #[contractimpl(contracttrait)]
+    impl Votes for FungDB {}
 }
 
 mod nw {
@@ -134,10 +160,10 @@ use fw::{AcctSnap, CurSnap};
 
 // ---------------- the system under test ----------------
 #[derive(Clone, Copy, PartialEq, Eq, Debug)]
-enum Kind { Fung, Example, Nft }
+enum Kind { Fung, Example, Nft, FungDb }
 impl Kind {
-    fn coq(&self) -> &'static str { match self { Kind::Fung => "KFung", Kind::Example => "KExample", Kind::Nft => "KNft" } }
-    fn tag(&self) -> &'static str { match self { Kind::Fung => "f", Kind::Example => "x", Kind::Nft => "n" } }
+    fn coq(&self) -> &'static str { match self { Kind::Fung | Kind::FungDb => "KFung", Kind::Example => "KExample", Kind::Nft => "KNft" } }
+    fn tag(&self) -> &'static str { match self { Kind::Fung => "f", Kind::Example => "x", Kind::Nft => "n", Kind::FungDb => "d" } }
 }
 
 /// host configurations: (max_entry_ttl = min_persistent_entry_ttl, min_temp_entry_ttl).
@@ -146,7 +172,9 @@ impl Kind {
 /// min persistent ttl = max ttl in all of them: an entry removed and re-created inside one invocation (full
 /// self-transfer) must not get a smaller live_until than before - the test host's rent metering underflows otherwise.
 /// The test host auto-restores expired persistent entries and the contract instance (probed up to +4.6M ledgers).
-const HOST_CFGS: [(u32, u32); 3] = [(3_110_400, 1), (1_000_000, 17_280), (6000, 1)];
+/// D: min persistent ttl (4096) differs from max ttl, so the library's own extend_ttl calls take effect and entries do
+/// expire (and are auto-restored); there the generator never makes a self-transfer (see above).
+const HOST_CFGS: [(u32, u32, u32); 4] = [(3_110_400, 3_110_400, 1), (1_000_000, 1_000_000, 17_280), (6000, 6000, 1), (3_110_400, 4096, 16)];
 const LONG_ADVANCES: [u32; 6] = [20, 100, 17_281, 20_000, 600_000, 4_000_000];
 const NIDS: usize = 8;
 
@@ -198,6 +226,8 @@ struct Sut {
     now: u32,
     start: u32,
     maxttl: u32,
+    full_upto: u32,   // every past ledger 0..now-1 is queried while now <= full_upto
+    nobs: u64,
     appr_at: Vec<(usize, usize, u32)>, // (owner, spender, ledger of the last successful approve)
     touched: Vec<u32>, // ledgers at which a state-changing call succeeded
     view: View,
@@ -205,26 +235,27 @@ struct Sut {
 
 impl Sut {
     fn new(kind: Kind, naddr: usize, start: u32, hc: usize) -> Sut {
-        let (maxttl, min_temp) = HOST_CFGS[hc];
+        let (maxttl, min_pers, min_temp) = HOST_CFGS[hc];
         let e = Env::default();
         e.cost_estimate().budget().reset_unlimited();
         e.cost_estimate().disable_resource_limits();
-        e.ledger().with_mut(|l| { l.sequence_number = start; l.min_temp_entry_ttl = min_temp; l.max_entry_ttl = maxttl; l.min_persistent_entry_ttl = maxttl; });
+        e.ledger().with_mut(|l| { l.sequence_number = start; l.min_temp_entry_ttl = min_temp; l.max_entry_ttl = maxttl; l.min_persistent_entry_ttl = min_pers; });
         // (min persistent ttl = max ttl: an entry removed and re-created inside one invocation - full self-transfer -
         //  must not get a smaller live_until than before, the test host's rent metering underflows otherwise)
         let addrs: Vec<Address> = (0..naddr).map(|_| Address::generate(&e)).collect();
         let owner = 0usize;
         let id = match kind {
             Kind::Fung => e.register(fw::FungW, ()),
+            Kind::FungDb => e.register(fw::FungDB, ()),
             Kind::Example => e.register(ex::contract::ExampleContract, (&addrs[owner],)),
             Kind::Nft => e.register(nw::NftW, ()),
         };
         let view = View { bal: vec![0; naddr], dlg: vec![None; naddr], votes: vec![0; naddr], ncps: vec![0; naddr], ts_ncps: 0, owners: vec![None; NIDS], alw: vec![] };
-        Sut { e, kind, id, addrs, owner, now: start, start, maxttl, appr_at: vec![], touched: vec![], view }
+        Sut { e, kind, id, addrs, owner, now: start, start, maxttl, full_upto: 34, nobs: 0, appr_at: vec![], touched: vec![], view }
     }
     fn header(&self) -> String {
-        format!("{{| h_kind := {}; h_n := {}; h_ids := {}; h_start := {}; h_maxttl := {}; h_owner := {} |}}",
-                self.kind.coq(), self.addrs.len(), if self.kind == Kind::Nft { NIDS } else { 0 }, self.start, self.maxttl, n(self.owner as u64))
+        format!("{{| h_kind := {}; h_n := {}; h_ids := {}; h_start := {}; h_maxttl := {}; h_owner := {}; h_db := {} |}}",
+                self.kind.coq(), self.addrs.len(), if self.kind == Kind::Nft { NIDS } else { 0 }, self.start, self.maxttl, n(self.owner as u64), b(self.kind == Kind::FungDb))
     }
     fn idx(&self, a: &Address) -> Option<usize> { self.addrs.iter().position(|x| x == a) }
     fn av(&self, i: usize) -> Val { self.addrs[i].to_val() }
@@ -336,7 +367,7 @@ impl Sut {
     fn query_set(&self, rng: &mut Rng) -> (Vec<u32>, Vec<u32>) {
         let now = self.now;
         let mut past: Vec<u32> = vec![];
-        if now <= 34 { past.extend(0..now); }
+        if now <= self.full_upto { past.extend(0..now); }
         else {
             let mut add = |q: i64| { if q >= 0 && (q as u64) < now as u64 { past.push(q as u32); } };
             add(0); add(1); add(now as i64 - 1); add(now as i64 - 2); add(self.start as i64 - 1); add(self.start as i64);
@@ -381,6 +412,7 @@ impl Sut {
         }
         // past queries
         let (past, fut) = self.query_set(rng);
+        self.nobs += 1;
         let mut rows: Vec<(u32, Vec<Option<u128>>)> = vec![];
         let via_entry = self.kind == Kind::Example;
         let mut batch_ok = false;
@@ -394,8 +426,8 @@ impl Sut {
             }
         }
         if !batch_ok { for &q in &past { rows.push((q, self.past_row_entry(q))); } }
-        else if rng.chance(1, 3) {
-            // the trait entry points themselves, on a boundary or random past ledger
+        else if self.nobs % 3 == 0 {
+            // the trait entry points themselves (every third observation), on a boundary or random past ledger
             let q = match rng.below(3) { 0 => self.now - 1, 1 => *rng.pick(&past), _ => past[0] };
             rows.push((q, self.past_row_entry(q)));
             out.label("past.entrypoint");
@@ -410,7 +442,7 @@ impl Sut {
             pair(&format!("{}", q), &list(&row.iter().map(|x| match x { Some(v) => format!("Some {}", zu_(*v)), None => "None".into() }).collect::<Vec<_>>()))
         }).collect();
         self.view = view;
-        format!("mkO {} {} {} {} {} {} {}", self.now, list(&accts_s), z(cur.supply), zu_(cur.ts), cps_s(&cur.ts_cps), list(&owners_s), list(&rows_s))
+        format!("mkO {} {} {} {} {} {} {}", self.e.ledger().sequence(), list(&accts_s), z(cur.supply), zu_(cur.ts), cps_s(&cur.ts_cps), list(&owners_s), list(&rows_s))
     }
 }
 
@@ -515,6 +547,7 @@ fn classify(s: &Sut, c: &Call, ok: bool, before: &View) -> Vec<String> {
         match c {
             Call::Transfer(a, b_, x) => {
                 if a == b_ { ls.push("transfer.self/ok".into()); }
+                if a == b_ && ((s.kind != Kind::Nft && *x == before.bal[*a] && *x > 0) || (s.kind == Kind::Nft && before.bal[*a] == 1)) { ls.push("transfer.self-full/ok".into()); }
                 if s.kind != Kind::Nft && *x == before.bal[*a] && *x > 0 { ls.push("transfer.full-balance/ok".into()); }
                 if before.dlg[*a].is_some() && before.dlg[*a] == before.dlg[*b_] && a != b_ { ls.push("transfer.same-delegate/ok".into()); }
             }
@@ -532,18 +565,25 @@ fn classify(s: &Sut, c: &Call, ok: bool, before: &View) -> Vec<String> {
     ls
 }
 
-fn run_trace(out: &mut Out, rng: &mut Rng, desc: &str, kind: Kind, naddr: usize, start: u32, script: Vec<(Call, Vec<usize>)>, random_len: usize, gaps: bool, hc: usize) {
+fn run_trace(out: &mut Out, rng: &mut Rng, desc: &str, kind: Kind, naddr: usize, start: u32, script: Vec<(Call, Vec<usize>)>, random_len: usize, gaps: bool, hc: usize, full_upto: u32) {
     let mut s = Sut::new(kind, naddr, start, hc);
+    if full_upto > 0 { s.full_upto = full_upto; }
     let g = Gen { kind, naddr, gaps };
     let mut items: Vec<String> = vec![];
     let mut script = script.into_iter();
     let total = script.len() + random_len;
-    out.label(["cfg.A", "cfg.B", "cfg.C"][hc]);
+    out.label(["cfg.A", "cfg.B", "cfg.C", "cfg.D"][hc]);
     // a trap inside the host itself (not a contract error) must not abort the harness: the trace ends with a sentinel
     // observation that both the diff and the monitor flag
     let r = std::panic::catch_unwind(std::panic::AssertUnwindSafe(|| {
         for _ in 0..total {
-            let (c, au) = match script.next() { Some(x) => x, None => g.next(rng, &s) };
+            let (mut c, au) = match script.next() { Some(x) => x, None => g.next(rng, &s) };
+            // configuration D (min persistent ttl < max ttl): a self-transfer of the full balance removes and re-creates
+            // VotingUnits(a) inside one invocation, which underflows the TEST host's rent metering - never self-transfer there
+            if hc == 3 { match &mut c {
+                Call::Transfer(a, b_, _) | Call::TransferFrom(_, a, b_, _) if *a == *b_ => { *b_ = (*a + 1) % naddr; }
+                _ => {}
+            } }
             let before = s.view.clone();
             let res = s.exec(&c, &au);
             let ok = res != "Fail";
@@ -570,7 +610,7 @@ fn run_trace(out: &mut Out, rng: &mut Rng, desc: &str, kind: Kind, naddr: usize,
     }));
     if r.is_err() {
         out.label("host-panic");
-        items.push(format!("([], Advance 0, (Ok 0), mkO {} [] (-1) (-1) [] [] [])", s.now));
+        items.push(format!("((@nil N), Advance 0, (Ok 0), mkO {} [] (-1) (-1) [] [] [])", s.now));
     }
     let nn = items.len();
     out.trace(desc, format!("({}, {})", s.header(), list(&items)), nn);
@@ -606,28 +646,76 @@ fn main() {
             Advance(1), Delegate(1, 0), Mint(1, x(7, 2)), Delegate(0, 2), Advance(2), Transfer(1, 1, x(5, 0)), Transfer(1, 0, x(57, 0)),
             Delegate(2, 2), Advance(1), Delegate(0, 0), Delegate(1, 1), Advance(3),
         ], kind);
-        run_trace(&mut out, &mut rng, "directed/one-ledger-bursts", kind, 3, 0, sc, 0, false, 0);
+        run_trace(&mut out, &mut rng, "directed/one-ledger-bursts", kind, 3, 0, sc, 0, false, 0, 0);
         // 2. one checkpoint per ledger: list lengths 1 .. 9 for the binary search, every ledger queried
         let mut v = vec![Delegate(0, 1), Delegate(2, 1)];
         for k in 0..9 { v.push(Mint(if k % 2 == 0 { 0 } else { 2 }, x(10 + k, k % 8))); v.push(Advance(if k % 3 == 2 { 2 } else { 1 })); }
-        run_trace(&mut out, &mut rng, "directed/lengths-1-to-9", kind, 3, 1, all(v, kind), 0, false, 1);
+        run_trace(&mut out, &mut rng, "directed/lengths-1-to-9", kind, 3, 1, all(v, kind), 0, false, 1, 0);
         // 3. start at a later ledger: every past ledger before the first checkpoint answers 0
         let sc = all(vec![Mint(1, x(5, 3)), Delegate(1, 1), Advance(1), Delegate(1, 0), Advance(1), Delegate(1, 2), Advance(4)], kind);
-        run_trace(&mut out, &mut rng, "directed/late-start", kind, 3, 7, sc, 0, false, 2);
+        run_trace(&mut out, &mut rng, "directed/late-start", kind, 3, 7, sc, 0, false, 2, 0);
         if kind != Kind::Example {
             // 4. burn paths: burn, burn_from, full burn back to zero units (entry removed)
             let sc = all(vec![
                 Mint(0, x(40, 0)), Mint(0, x(2, 1)), Delegate(0, 1), Advance(1), Approve(0, 2, x(25, 0), 50), BurnFrom(2, 0, x(10, 0)),
                 Advance(1), Burn(0, x(32, 1)), Advance(1), Mint(0, x(3, 2)), Advance(2),
             ], kind);
-            run_trace(&mut out, &mut rng, "directed/burns", kind, 3, 0, sc, 0, false, 1);
+            run_trace(&mut out, &mut rng, "directed/burns", kind, 3, 0, sc, 0, false, 1, 0);
         }
         // 5. transfer_from between accounts with different / same delegates
         let sc = all(vec![
             Mint(0, x(90, 0)), Mint(0, x(1, 1)), Delegate(0, 2), Delegate(1, 2), Advance(1), Approve(0, 1, x(60, 0), 40), TransferFrom(1, 0, 1, x(15, 0)),
             Advance(1), Delegate(1, 1), Approve(0, 1, x(60, 1), 40), TransferFrom(1, 0, 1, x(20, 1)), Advance(2),
         ], kind);
-        run_trace(&mut out, &mut rng, "directed/transfer-from", kind, 3, 0, sc, 0, false, 0);
+        run_trace(&mut out, &mut rng, "directed/transfer-from", kind, 3, 0, sc, 0, false, 0, 0);
+    }
+
+    // 8. every way a call can fail, deterministically (each */fail label of the coverage gate), the u32 end of the
+    //    ledger range, and a self-transfer of the full balance
+    for &kind in &[Kind::Fung, Kind::Example, Kind::Nft, Kind::FungDb] {
+        let nft = kind == Kind::Nft;
+        let x = |v: i128, id: i128| if nft { id } else { v };
+        let own: Vec<usize> = if kind == Kind::Example { vec![0] } else { vec![] };
+        let mut v: Vec<(Call, Vec<usize>)> = vec![
+            (Mint(0, x(-5, -1)), own.clone()),                 // negative amount / id outside u32
+            (Mint(0, x(100, 0)), if kind == Kind::Example { vec![1] } else { own.clone() }),   // example: not the owner
+            (Mint(0, x(100, 0)), own.clone()),
+            (Transfer(0, 1, x(500, 7)), vec![0]),              // more than the balance / an id that does not exist
+            (Transfer(0, 1, x(5, 0)), vec![]),                 // nobody authorises
+            (Transfer(0, 1, x(5, 0)), vec![1]),                // the wrong account authorises
+            (TransferFrom(1, 0, 2, x(5, 0)), vec![1]),         // no allowance / approval
+            (Burn(0, x(500, 5)), vec![0]),
+            (BurnFrom(1, 0, x(5, 0)), vec![1]),
+            (Delegate(0, 1), vec![1]),                         // not authorised by the delegator
+            (Delegate(0, 1), vec![0]),
+            (Delegate(0, 1), vec![0]),                         // same delegate again
+            (Advance(5), vec![]),
+            (Approve(0, 1, x(5, 0), 2), vec![0]),              // live_until in the past
+            (Approve(0, 1, x(5, 9), 50), vec![0]),             // (nft: id that does not exist)
+            (Approve(1, 2, x(-1, 0), 50), vec![1]),            // negative amount / not the owner of the id
+            (Advance(u32::MAX), vec![]),                       // ledger sequence would leave u32
+            (SeqMint(1), vec![]),
+        ];
+        if kind == Kind::Example { v.retain(|c| !matches!(c.0, SeqMint(_))); }
+        run_trace(&mut out, &mut rng, "directed/failures", kind, 3, 0, v, 0, false, 0, 0);
+        // full-balance self-transfer (VotingUnits removed and re-created in one invocation), with and without a delegate
+        let sc = all(vec![Mint(0, x(7, 0)), Transfer(0, 0, x(7, 0)), Delegate(0, 1), Advance(1), Transfer(0, 0, x(7, 0)), Advance(2), Delegate(0, 0), Transfer(0, 0, x(7, 0)), Advance(1)], kind);
+        run_trace(&mut out, &mut rng, "directed/self-full-transfer", kind, 2, 0, sc, 0, false, 1, 0);
+    }
+    // the u32 end of the ledger range (tiny ttl configuration so that now + max ttl stays inside u32)
+    for &kind in &[Kind::Fung, Kind::Nft] {
+        let nft = kind == Kind::Nft;
+        let x = |v: i128, id: i128| if nft { id } else { v };
+        // (the library's persistent extend_ttl(.., 518400) makes the host fail with an internal error once
+        //  now + 518400 > u32::MAX, so the usable ledger range ends 518400 ledgers earlier: stay just below it)
+        let sc = all(vec![Mint(0, x(9, 0)), Delegate(0, 1), Advance(440_000), Transfer(0, 1, x(4, 0)), Advance(8_000), Delegate(1, 1), Advance(800), Mint(1, x(2, 1)), Advance(90)], kind);
+        run_trace(&mut out, &mut rng, "directed/ledger-near-u32-max", kind, 2, 4_294_000_000, sc, 0, true, 2, 0);
+    }
+    // the default-burn wiring (h_db): burn / burn_from move balances but not the votes - model (step_db) vs code, diff only
+    {
+        let sc = all(vec![Mint(0, 100), Mint(1, 40), Delegate(0, 2), Delegate(1, 1), Advance(1), Burn(0, 30), Advance(1), Approve(1, 2, 25, 60), BurnFrom(2, 1, 10),
+                          Advance(2), Transfer(0, 1, 70), Burn(1, 100), Advance(1), Burn(0, 1), Mint(0, 5), Advance(1)], Kind::FungDb);
+        run_trace(&mut out, &mut rng, "directed/default-burn-wiring", Kind::FungDb, 3, 0, sc, 0, false, 0, 0);
     }
 
     // 7. persistence: every stored item (balances, units, delegatees, checkpoint counters and entries, supply, owners,
@@ -636,7 +724,7 @@ fn main() {
     for &kind in &[Kind::Fung, Kind::Example, Kind::Nft] {
         let nft = kind == Kind::Nft;
         let x = |v: i128, id: i128| if nft { id } else { v };
-        for hc in 0..2usize {
+        for hc in [0usize, 1, 3] {
             let live = 700_000u32.min(HOST_CFGS[hc].0 - 1);
             let mut v = vec![
                 Mint(0, x(100, 0)), Mint(2, x(40, 1)), Mint(0, x(9, 2)), Delegate(0, 1), Delegate(2, 2), Approve(0, 2, x(30, 2), live),
@@ -650,21 +738,21 @@ fn main() {
             ];
             if kind != Kind::Example { v.push(Burn(2, x(1, 0))); }
             v.extend(vec![Advance(600_000), Transfer(1, 2, x(2, 3)), Advance(20), Delegate(1, 1), Advance(4_000_000)]);
-            run_trace(&mut out, &mut rng, "directed/persistence", kind, 3, 0, all(v, kind), 0, true, hc);
+            run_trace(&mut out, &mut rng, "directed/persistence", kind, 3, 0, all(v, kind), 0, true, hc, 0);
         }
         // dormant accounts: state is written once, then only long single advances with no call at all in between
         let mut v = vec![Mint(0, x(50, 0)), Mint(1, x(8, 1)), Delegate(0, 2), Delegate(1, 1)];
         for k in LONG_ADVANCES { v.push(Advance(k)); }
         v.push(Delegate(0, 0)); v.push(Advance(4_000_000)); v.push(Transfer(1, 0, x(8, 1)));
-        run_trace(&mut out, &mut rng, "directed/dormant", kind, 3, 3, all(v, kind), 0, true, 1);
+        run_trace(&mut out, &mut rng, "directed/dormant", kind, 3, 3, all(v, kind), 0, true, 1, 0);
     }
 
-    // 6. long lists: one checkpoint per ledger up to 2^5+2 (quick) / 2^8+2 (thorough) entries, so that the binary
-    //    search runs 5 (8) levels deep on lists of every length 1 .. 2^k+2; every past ledger queried while <= 34,
+    // 6. long lists: one checkpoint per ledger up to 2^6+2 (quick) / 2^8+2 (thorough) entries, so that the binary
+    //    search runs 6 (8) levels deep on lists of every length 1 .. 2^k+2; every past ledger queried throughout
     //    the boundary set afterwards
     for &kind in &[Kind::Fung, Kind::Nft] {
         let nft = kind == Kind::Nft;
-        let n_led = if thorough { 258 } else { 34 };
+        let n_led = if thorough { 258 } else { 66 };
         let mut v = vec![Delegate(0, 1), Delegate(2, 2)];
         for k in 0..n_led {
             // alternate: mint to 0 (votes of 1 and supply move), transfer 0 -> 2 (votes of 1 and 2 move), re-delegation
@@ -675,20 +763,33 @@ fn main() {
             };
             v.push(c); v.push(Advance(1));
         }
-        run_trace(&mut out, &mut rng, "directed/long-lists", kind, 3, 0, all(v, kind), 0, false, if nft { 1 } else { 0 });
+        run_trace(&mut out, &mut rng, "directed/long-lists", kind, 3, 0, all(v, kind), 0, false, if nft { 1 } else { 0 }, n_led + 2);
+    }
+
+    // 6b. long lists in boundary-set mode (gaps of 37 ledgers): a corruption deep in the list is not among the queried
+    //     ledgers; the comparison of the checkpoint lists themselves has to catch it
+    for &kind in &[Kind::Fung, Kind::Nft] {
+        let nft = kind == Kind::Nft;
+        let mut v = vec![Delegate(0, 1), Delegate(2, 2)];
+        for k in 0..40 {
+            let c = if nft { match k % 4 { 0 => SeqMint(0), 1 => SeqMint(2), 2 => Delegate(2, if k % 8 == 2 { 1 } else { 2 }), _ => SeqMint(0) } }
+                    else { match k % 4 { 0 => Mint(0, 10 + k as i128), 1 => Transfer(0, 2, 3), 2 => Delegate(2, if k % 8 == 2 { 1 } else { 2 }), _ => Transfer(2, 0, 1) } };
+            v.push(c); v.push(Advance(37));
+        }
+        run_trace(&mut out, &mut rng, "directed/long-lists-sparse", kind, 3, 0, all(v, kind), 0, true, if nft { 0 } else { 3 }, 0);
     }
 
     // ---- random traces ----
     let (ntr, len) = if thorough { (700 * scale, 50) } else { (130 * scale, 34) };
     for i in 0..ntr {
-        let kind = match i % 7 { 0 | 1 | 2 => Kind::Fung, 3 => Kind::Example, _ => Kind::Nft };
+        let kind = match i % 7 { 0 | 1 | 2 => if i % 21 == 0 { Kind::FungDb } else { Kind::Fung }, 3 => Kind::Example, _ => Kind::Nft };
         let gaps = i % 5 == 4;
         let naddr = if kind == Kind::Example { 3 } else { 3 + rng.below(3) as usize };
         let start = match rng.below(6) { 0 => 0, 1 => 1, 2 => 2 + rng.below(8) as u32, 3 if gaps => 1000 + rng.below(100000) as u32, _ => 0 };
         let l = if kind == Kind::Example { len * 2 / 3 } else { len };
         let l = if thorough && gaps { l * 2 } else { l };
-        let hc = match i % 20 { 0..=9 => 0, 10..=16 => 1, _ => 2 };
-        run_trace(&mut out, &mut rng, &format!("random/{}{}", kind.tag(), if gaps { "/gaps" } else { "" }), kind, naddr, start, vec![], l, gaps, hc);
+        let hc = match i % 20 { 0..=7 => 0, 8..=12 => 1, 13..=15 => 2, _ => 3 };
+        run_trace(&mut out, &mut rng, &format!("random/{}{}", kind.tag(), if gaps { "/gaps" } else { "" }), kind, naddr, start, vec![], l, gaps, hc, 0);
     }
     out.finish();
 }
